@@ -291,7 +291,8 @@ fn main() {
             }
             // stage A is thinned in the quick tier: every call on the first inputs, then a rotating subset
             let big = inp.g.number_of_nodes() > 100;
-            if !big && tier == "quick" && replay_only.is_none() && (ci + inputs.iter().position(|x| x.name == inp.name).unwrap_or(0)) % 3 != 0 {
+            let special = cname.contains("-> error") || cname.contains("repeated sources");
+            if !big && !special && tier == "quick" && replay_only.is_none() && (ci + inputs.iter().position(|x| x.name == inp.name).unwrap_or(0)) % 3 != 0 {
                 continue;
             }
             if Instant::now() > deadline_a {
